@@ -84,6 +84,8 @@ class RandomGen(Gen):
         possible_keys = (enumerator.preamble_solution_count()
                          * pow(enumerator.solution_count(), rounds_per_run)
                          * enumerator.leftover_solution_count())
+        # Report the count for a whole run (preamble, every round, and any leftover), not for one round
+        metrics['solution_count'] = possible_keys
         while sampled < sample_count:
             if len(used_keys) == possible_keys:
                 break
